@@ -111,17 +111,17 @@ CHECKS = {
 
     "C18": dict(
         engine="pyvc",
-        technique="contract-based deductive verification of the curve functions: digit pipeline (shift / un-shift) proved the identity for every level and orientation class by symbolic execution with ghost assertions at loop boundaries (bit-vectors); inductive step of the digit-recovery loop and the base case through get_pentagon_vertices/get_center/face_to_ij proved over real arithmetic; composition over the iterations covered by a bounded native round trip (labelled)",
+        technique="contract-based deductive verification of the curve functions, all loops unrolled at their concrete level with sidecar ghost assertions at the loop boundaries: the digit pipeline (shift / un-shift) over bit-vectors, the digit-recovery loop over real arithmetic for arbitrary digit strings (ghost tails, region claims proved bottom-up from the step lemma), the base case through get_pentagon_vertices / get_center / face_to_ij",
         category="proof",
         text=("A: for every level h = 1..28 and each (invert_j, flip_ij) class, the statements of _s_to_anchor that extract and shift the digits followed by the statements of _ij_to_s "
-              "that un-shift and recombine them are the identity on all S < 4^h (one symbolic index per case; per-iteration ghost assertions keep every VC local). B: for every flip "
-              "state and digit, over the real quaternary_to_kj / kj_to_ij / quaternary_to_flips / ij_to_quaternary: a remainder inside s*Tri(f') by margin 1/10 gives a position inside "
-              "2s*Tri(f) by the same margin and ij_to_quaternary recovers the digit, for all scales of levels <= 28. C: for all six orientations, levels and inner (flips, k), the real "
-              "wrappers, get_pentagon_vertices, get_center and face_to_ij map a symbolic anchor offset to offset + d with d inside its half-unit triangle by margin 1/10. The induction "
-              "that composes B over the h iterations is NOT mechanised: bounded native round trip (levels 1..5 exhaustive, directed/random to level 28), labelled bounded. The "
-              "prefix/nesting clause is not claimed."),
-        design_ref="DESIGN.md section 8 / C18",
-        note=PYVC_NOTE + " A6: parts B and C treat binary64 as exact real arithmetic (margin 1/10 proved).",
+              "that un-shift and recombine them are the identity on all S < 4^h. B: for arbitrary shifted digits D in {0..3}^h the offset accumulated by _s_to_anchor plus any centre "
+              "displacement allowed by C is turned back into exactly D by the first loop of _ij_to_s (flip state, input-pivot and digit asserted per iteration; tail regions proved bottom-up; "
+              "the single step also proved stand-alone for all scales and flip states) - all levels in the thorough tier, levels 1..10,14,18,22,26,28 in the quick tier. C: for all six "
+              "orientations, all levels and every inner (flips, k), the real wrappers, get_pentagon_vertices, get_center and face_to_ij map a symbolic anchor offset to offset + d with d at "
+              "least 1/10 inside its half-unit triangle. A, B, C compose to: index -> anchor -> pentagon -> centre -> index is the identity, hence injective with 4^h distinct cells inside "
+              "the segment triangle (top-level region claim). A bounded native round trip runs in addition (labelled). The prefix/nesting clause is not claimed."),
+        design_ref="DESIGN.md sections 8, 15 / C18",
+        note=PYVC_NOTE + " A6: parts B and C treat binary64 as exact real arithmetic (margin 1/10 proved, rounding < 1e-6 at |offset| <= 2^29).",
     ),
     "C19": dict(
         engine="pyvc",
